@@ -68,6 +68,8 @@ type Summary struct {
 	WallS      float64          `json:"wall_s"`
 	Infra      string           `json:"infra,omitempty"`
 	EndCounts  map[string]int   `json:"run_end_counts"`
+	SlowRun    int              `json:"slowest_run"`
+	SlowMs     int64            `json:"slowest_run_ms"`
 }
 
 var siteNames = map[int64]string{}
@@ -200,7 +202,11 @@ func main() {
 			break
 		}
 		plan, sched := sources(*prop, *seed, *worker, i)
+		tRun := time.Now()
 		o := p.Run(plan, sched, false)
+		if ms := time.Since(tRun).Milliseconds(); ms > sum.SlowMs {
+			sum.SlowMs, sum.SlowRun = ms, i
+		}
 		if o.Infra != "" {
 			sum.Infra = fmt.Sprintf("run %d: %s", i, o.Infra)
 			break
